@@ -25,10 +25,14 @@ func (x *Exec) verifyFunction(fn *ssa.Function, c *FuncContract) (rep FuncReport
 	x.curTopName = funcFull(fn)
 	x.safetyOn = c == nil || c.Safety != "off"
 	x.partialMode = c != nil && c.Partial
-	if x.partialMode {
+	x.partialLoops = c != nil && c.PartialLoops
+	if x.partialMode && !x.partialLoops {
 		x.trusted["partial contract: only the ensures / assert-before-call clauses of "+funcFull(fn)+" are checked; its loops, callee preconditions and run-time safety are not claimed"] = true
 	}
-	defer func() { x.partialMode = false }()
+	if x.partialLoops {
+		x.trusted["partial contract: the ensures / assert-before-call clauses, loop invariants and frame conditions of "+funcFull(fn)+" are checked; preconditions of its callees (numeric range assumptions) and run-time safety are not claimed"] = true
+	}
+	defer func() { x.partialMode, x.partialLoops = false, false }()
 	startPaths := x.paths
 	startObls := len(x.obls)
 	defer func() {
